@@ -283,9 +283,67 @@ func (io *c07IO) ReceiveMessage() (*protocol.UDPMessage, error) {
 	return &m, nil
 }
 
+// c07ParseWire reads a serialized UDPMessage back (protocol.ParseUDPMessage refuses an empty payload,
+// which the reply direction may carry: c07R0). Data is a copy.
+func c07ParseWire(b []byte) (*protocol.UDPMessage, bool) {
+	if len(b) < 9 {
+		return nil, false
+	}
+	m := &protocol.UDPMessage{
+		SessionID: uint32(b[0])<<24 | uint32(b[1])<<16 | uint32(b[2])<<8 | uint32(b[3]),
+		PacketID:  uint16(b[4])<<8 | uint16(b[5]),
+		FragID:    b[6],
+		FragCount: b[7],
+	}
+	b = b[8:]
+	vl := 1 << (b[0] >> 6) // QUIC varint: 1, 2, 4 or 8 bytes
+	if len(b) < vl {
+		return nil, false
+	}
+	la := uint64(b[0] & 0x3f)
+	for _, c := range b[1:vl] {
+		la = la<<8 | uint64(c)
+	}
+	b = b[vl:]
+	if la == 0 || la > uint64(len(b)) {
+		return nil, false
+	}
+	m.Addr = string(b[:la])
+	m.Data = append([]byte{}, b[la:]...)
+	return m, true
+}
+
+// SendMessage works like the real udpIOImpl.SendMessage: the message is serialized INTO THE BUFFER
+// THE CALLER HANDS IN, and the datagram the client gets is whatever that buffer holds when the QUIC
+// connection copies it out (SendDatagram) - a scheduling point lies between the two, so the reply
+// loop of another session can run there. What is judged below is the datagram read back out of the
+// buffer, not the caller's struct: with a buffer per reply loop the two are the same. Added after the
+// independently seeded change C07-10 (one serialization buffer per client connection shared by the
+// reply loops of all its sessions: the datagram sent for one session carried another session's id,
+// address and payload).
 func (io *c07IO) SendMessage(buf []byte, msg *protocol.UDPMessage) error {
 	w := io.w
 	w.e.Point("net", nil, "c07.SendMessage")
+	handed := msg
+	n := handed.Serialize(buf)
+	if n < 0 {
+		// message larger than the buffer: silent drop, like the real IO (a reply that is never
+		// forwarded is reported at the end)
+		w.logf("send s%d DROPPED: buffer of %d bytes too small", handed.SessionID, len(buf))
+		return nil
+	}
+	w.e.Point("net", nil, "c07.SendDatagram")
+	msg, ok := c07ParseWire(buf[:n])
+	if !ok {
+		w.e.Fail("C07 isolation: the datagram sent to the client for a reply of session %d is not a well-formed message", handed.SessionID)
+		w.logf("send s%d GARBLED %q", handed.SessionID, buf[:n])
+		return nil
+	}
+	if msg.SessionID != handed.SessionID || msg.Addr != handed.Addr || string(msg.Data) != string(handed.Data) ||
+		msg.PacketID != handed.PacketID || msg.FragID != handed.FragID || msg.FragCount != handed.FragCount {
+		w.logf("send s%d %q addr=%s went out as s%d %q addr=%s", handed.SessionID, handed.Data, handed.Addr, msg.SessionID, msg.Data, msg.Addr)
+		w.e.Fail("C07 isolation: the datagram sent to the client for a reply of session %d is not that reply (it carries session id %d)", handed.SessionID, msg.SessionID)
+	}
 	var r *c07Rep
 	if len(msg.Data) > 0 {
 		r = w.repTag[msg.Data[0]]
@@ -1057,6 +1115,13 @@ func c07Scenarios() []*c07Scn {
 		// two sessions sharing one destination, replies on both sockets; faults on the send path
 		{name: "two-sessions-one-destination", quick: qd, thorough: t2, twin: td4,
 			envs:   [][]c07Step{{c07Dg(1, "x:1"), c07Dg(2, "x:1"), c07Rp(1)}},
+			checks: []int64{s / 2}},
+		// two sessions whose remotes reply at the same moment: both reply loops are inside the send path
+		// (serialize / hand the datagram to the connection) together; each client datagram is the reply
+		// of the session it names. Added after the independently seeded change C07-10 (serialization
+		// buffer shared by the reply loops of all sessions of a connection)
+		{name: "two-sessions-reply-together", quick: qd, thorough: t2, twin: td4,
+			envs:   [][]c07Step{{c07Dg(1, "x:1"), c07Dg(2, "y:2"), c07Rp(1), c07Rp(2)}},
 			checks: []int64{s / 2}},
 		// fragmented datagram (session 1) and a lone first fragment (session 2: never dials, expires silently)
 		{name: "fragments", quick: q, thorough: t,
